@@ -14,6 +14,17 @@ DISSIPATIVE = ("TwoPointLinearDamper", "GlobalDamper", "MobilityLinearDamper", "
 WORKING = ("TwoPointConstantForce", "ConstantForce", "ConstantTorque", "MobilityConstantForce")   # documented as doing non-potential work
 
 
+def nan_obligations(tr):
+    """a NaN among the declared outputs can never satisfy a law: turned into a constant-false obligation (reported as VIOLATION after replay)"""
+    from engine.driver.core import Ob
+    from engine.driver.encode import Constraint
+    bad = [n for n in tr.output_order if tr.out_value(n) != tr.out_value(n)]
+    if not bad:
+        return None
+    return [Ob("output %s is NaN (%d NaN outputs): a realized force/energy value was never computed" % (bad[0], len(bad)),
+               [Constraint(1, P.const(1), "NaN output")])]
+
+
 class V:
     """small vector algebra over a ring"""
 
